@@ -439,3 +439,14 @@ def buffered_drop_discipline(ctx, rule, bodies, armed=True):
             else:
                 ctx.note(rule, where, 'sweep: ' + msg)
     return n
+
+
+def reevaluate(ctx, new_rule, fn, *args):
+    """run another property's rule function and re-label the obligations it adds as `new_rule` (cross-reference)"""
+    before = len(ctx.obligations)
+    fn(ctx, *args)
+    for o in ctx.obligations[before:]:
+        o['key'] = o['key'].replace(o['rule'] + '|', new_rule + '|', 1)
+        o['detail'] = '[%s] %s' % (o['rule'], o['detail'])
+        o['rule'] = new_rule
+    ctx.rules_run.add(new_rule)
